@@ -145,9 +145,15 @@ static int decide(int site, bool finishing) {
 	return next;
 }
 
+static __thread int t_lock_depth = 0;
+void sched_lock_enter() { ++t_lock_depth; }
+void sched_lock_exit() { if (t_lock_depth > 0) --t_lock_depth; }
+int sched_lock_depth() { return t_lock_depth; }
+
 void sched_yield_point(int site) {
 	++g_stats.yields_total;
 	if (!g_in_phase) return;
+	if (t_lock_depth > 0) { ++g_stats.yields_in_lock; return; }
 	int me = t_slot;
 	if (me == 0 || me != g_cur) return; // not a simulated task (should not happen)
 	int next = decide(site, false);
